@@ -204,12 +204,13 @@ def main():
         sig = classify(f)
         hit = next((k for k in known if sig is not None and k.get("signature") == sig), None)
         if hit:
-            known_hits.setdefault(hit["id"], (hit, 0))
-            known_hits[hit["id"]] = (hit, known_hits[hit["id"]][1] + 1)
+            key = hit["id"] + ":" + str(hit.get("signature"))
+            known_hits.setdefault(key, (hit, 0))
+            known_hits[key] = (hit, known_hits[key][1] + 1)
         else:
             new_fail.append(f)
     for fid, (hit, cnt) in sorted(known_hits.items()):
-        print(f"KNOWN-FINDING: property={prop} {fid} {hit['what']} ({cnt} case(s) this run)")
+        print(f"KNOWN-FINDING: property={prop} {hit['id']} [{hit.get('signature')}] {hit['what']} ({cnt} case(s) this run)")
 
     violations = 0
     spec_fail = [f for f in new_fail if f["kind"] == "spec"]
